@@ -638,8 +638,22 @@ class Concatenate(GenericType):
     return self.parameters[-1]
 
 
-class Literal(Type):
+class Literal(Type, eq=False):
   value: int | str | bool | TypeU | Constant
+
+  # True == 1 and hash(True) == hash(1), but Literal[True] is not Literal[1].
+  def __eq__(self, other):
+    if self is other:
+      return True
+    if isinstance(other, Literal):
+      return (type(self.value), self.value) == (
+          type(other.value),
+          other.value,
+      )
+    return NotImplemented
+
+  def __hash__(self):
+    return hash((type(self.value), self.value))
 
 
 class Annotated(Type):
